@@ -151,7 +151,17 @@ def run_units(modname, units, jobs):
         return [_run_unit(u) for u in units]
     ctx = mp.get_context('fork')
     with ctx.Pool(min(jobs, len(units)), initializer=_init_worker, initargs=(modname,)) as pool:
-        return list(pool.imap_unordered(_run_unit, units, chunksize=1))
+        if not os.environ.get('VERIF_FAIL_FAST'):
+            return list(pool.imap_unordered(_run_unit, units, chunksize=1))
+        # detection self-tests only (verif.mutsweep): stop at the first unit that reports a fresh violation
+        parts = []
+        for p in pool.imap_unordered(_run_unit, units, chunksize=1):
+            parts.append(p)
+            if p['violations']:
+                p['caps'].append(f'VERIF_FAIL_FAST: stopped after {len(parts)} of {len(units)} units')
+                pool.terminate()
+                break
+        return parts
 
 
 # ----------------------------------------------------------------------------------------------
